@@ -61,6 +61,41 @@ def _returns_from(m: FuncInfo, M: str) -> bool:
     return any(isinstance(r, ast.Return) and r.value is not None and mentions(r.value, tainted) for r in ast.walk(m.node))
 
 
+def _stored_from_itself(m: FuncInfo, M: str) -> bool:
+    """every value stored into `self.M` is computed from `self.M` (directly or through locals that are ONLY ever defined from
+    it): a counter / issuer written as `self.M = self.M + n` or `first = self.M; self.M = first + n`, not a memo of
+    something else.  A local that is also assigned from another source (`t = self.M.get(k); if t is None: t = compute()`)
+    is not such a local."""
+    defs: dict[str, list[ast.expr]] = {}
+    for s_ in ast.walk(m.node):
+        if isinstance(s_, ast.Assign):
+            for t in s_.targets:
+                if isinstance(t, ast.Name):
+                    defs.setdefault(t.id, []).append(s_.value)
+    pure = set(defs)
+
+    def mentions(e: ast.AST) -> bool:
+        for x in ast.walk(e):
+            if isinstance(x, ast.Attribute) and x.attr == M and norm(x.value) == "self" and isinstance(x.ctx, ast.Load):
+                return True
+            if isinstance(x, ast.Name) and x.id in pure and isinstance(x.ctx, ast.Load):
+                return True
+        return False
+
+    changed = True
+    while changed:
+        changed = False
+        for nm in list(pure):
+            if not all(mentions(v) for v in defs[nm]):
+                pure.discard(nm)
+                changed = True
+    vals = []
+    for s_ in ast.walk(m.node):
+        if isinstance(s_, ast.Assign) and any(_self_attr_base(t) == M for t in s_.targets):
+            vals.append(s_.value)
+    return bool(vals) and all(mentions(v) for v in vals)
+
+
 def find_memos(P: Program):
     out = []
     for ci in P.classes.values():
@@ -84,7 +119,7 @@ def find_memos(P: Program):
                     loads.add(x.attr)
             has_ret = any(isinstance(r, ast.Return) and r.value is not None and not isinstance(r.value, ast.Constant) for r in ast.walk(m.node))
             for a, st in stores.items():
-                if a in loads and has_ret and _returns_from(m, a):
+                if a in loads and has_ret and _returns_from(m, a) and not _stored_from_itself(m, a):
                     out.append((ci, m, a, st))
             if "cached_property" in m.decorators():
                 out.append((ci, m, m.name, m.node))
